@@ -13,6 +13,7 @@ const (
 	verifEvAdmit
 	verifEvAdapt
 	verifEvLFUVictim
+	verifEvSample
 )
 
 func verifB(b bool) int64 { return 0 }
